@@ -64,7 +64,7 @@ one_read(uint32_t addr, uint32_t n)
         unsigned char exp[128];
         for (uint32_t k = 0; k < n; k++) {
             int ai = rt_area_of(d, addr + k);
-            if (d->area[ai].readable && !d->area[ai].window)
+            if (d->area[ai].readable && !d->area[ai].window && !d->area[ai].noread)
                 memcpy(exp + 2 * k, rt_model_word(&inst, addr + k), 2);
             else {
                 memset(exp + 2 * k, 0, 2);
@@ -83,6 +83,17 @@ one_read(uint32_t addr, uint32_t n)
         else if (memcmp(buf, exp, 2 * (size_t)n) != 0)
             vh_fail("read-data", nonreadable ? "window=nonreadable" : "window=readable", "%s: got %s expected %s", ctx,
                     vh_hex(buf, 2 * (size_t)n), vh_hex(exp, 2 * (size_t)n));
+        /* the unchecked entry point, which may be used on windows without holes, gives the same words (into a
+         * buffer that held something else before) */
+        if (n > 0) {
+            memset(buf, 0x5E, 2 * (size_t)n);
+            RegisterAccess u = register_block_read_unsafe(&inst.t, addr, n, buf);
+            if (u.code != REG_ACCESS_SUCCESS || memcmp(buf, exp, 2 * (size_t)n) != 0)
+                vh_fail("read-data", nonreadable ? "window=nonreadable entry=unsafe" : "window=readable entry=unsafe",
+                        "%s through register_block_read_unsafe: code=%d got %s expected %s", ctx, u.code, vh_hex(buf, 2 * (size_t)n),
+                        vh_hex(exp, 2 * (size_t)n));
+            VH_COUNT("read: unchecked entry point on a window without holes");
+        }
     } else {
         VH_COUNT("read: window touches an unmapped address");
         if (a.code != REG_ACCESS_NOENTRY || a.address != (uint32_t)first_unmapped)
